@@ -28,6 +28,8 @@ NoErr == [cls |-> "none", code |-> 0]
 Catch(code) == [cls |-> "catch", code |-> code]
 Uncatch(code) == [cls |-> "uncatch", code |-> code]
 Failed(ctx) == ctx.err.cls # "none"
+\* resolution errors: codes from 20000 are uncatchable
+ErrOf(code) == IF code >= 20000 THEN Uncatch(code) ELSE Catch(code)
 
 E_LocalService == 10000
 E_Match == 10001
@@ -190,7 +192,7 @@ IterCur(ctx, n) == ctx.it[n].vals[ctx.it[n].idx]
 GetValue(ctx, n) ==
     IF n \in DOMAIN ctx.it THEN
         (IF MatrixGet(ctx, n).r = "notfound" THEN [r |-> "ok", code |-> 0, val |-> IterCur(ctx, n)]
-         ELSE RErr(-1))     \* unreachable!() in the code: a scalar and an iterator with one name (C01)
+         ELSE RErr(U_IterableShadowing))   \* a scalar and an iterator with one name: uncatchable (was unreachable!(), C01)
     ELSE LET m == MatrixGet(ctx, n) IN
          IF m.r = "ok" THEN [r |-> "ok", code |-> 0, val |-> m.val]
          ELSE IF m.r = "uninit" THEN RErr(E_NotInitAfterNew)
@@ -289,11 +291,11 @@ ExecCall(i, ctx0) ==
     IN
     \* ResolvedCall::new: triplet, then the output name
     IF pr.r = "join" \/ (pr.r = "ok" /\ sr.r = "join") \/ (pr.r = "ok" /\ sr.r = "ok" /\ fr.r = "join") THEN Incomplete(ctx0)
-    ELSE IF pr.r = "err" THEN Raise(ctx0, Catch(pr.code))
+    ELSE IF pr.r = "err" THEN Raise(ctx0, ErrOf(pr.code))
     ELSE IF ~IsStr(pr.val.v) THEN Raise(ctx0, Catch(E_NonStringTriplet))
-    ELSE IF sr.r = "err" THEN Raise(ctx0, Catch(sr.code))
+    ELSE IF sr.r = "err" THEN Raise(ctx0, ErrOf(sr.code))
     ELSE IF ~IsStr(sr.val.v) THEN Raise(ctx0, Catch(E_NonStringTriplet))
-    ELSE IF fr.r = "err" THEN Raise(ctx0, Catch(fr.code))
+    ELSE IF fr.r = "err" THEN Raise(ctx0, ErrOf(fr.code))
     ELSE IF ~IsStr(fr.val.v) THEN Raise(ctx0, Catch(E_NonStringTriplet))
     ELSE
     LET p == pr.val.v.s  s == sr.val.v.s  f == fr.val.v.s  out == i.out
@@ -312,7 +314,7 @@ ExecCall(i, ctx0) ==
         \* and the next instruction will meet it (known finding "args-failed-after-sent", C04); kf1 records
         \* that the next state of either trace is a call state at this moment
         LET pn == NextState(ctx0.pt, ctx0.ps)  cn == NextState(ctx0.ct, ctx0.cs) IN
-        Raise([ctx0 EXCEPT !.kf1 = @ \/ (pn.has /\ IsCallState(pn.st)) \/ (cn.has /\ IsCallState(cn.st))], Catch(ar.code))
+        Raise([ctx0 EXCEPT !.kf1 = @ \/ (pn.has /\ IsCallState(pn.st)) \/ (cn.has /\ IsCallState(cn.st))], ErrOf(ar.code))
     ELSE
     LET argsKnown == ar.r = "ok"
         args == IF argsKnown THEN Vals(ar.vals) ELSE <<>>
@@ -438,15 +440,15 @@ ExecPar(i, ctx) ==
 ExecMatch(i, ctx, wantEqual) ==
     LET a == Resolve(ctx, i.a)  b == Resolve(ctx, i.b) IN
     IF a.r = "join" \/ (a.r = "ok" /\ b.r = "join") THEN Incomplete(ctx)
-    ELSE IF a.r = "err" THEN Raise(ctx, Catch(a.code))
-    ELSE IF b.r = "err" THEN Raise(ctx, Catch(b.code))
+    ELSE IF a.r = "err" THEN Raise(ctx, ErrOf(a.code))
+    ELSE IF b.r = "err" THEN Raise(ctx, ErrOf(b.code))
     ELSE IF (a.val.v = b.val.v) = wantEqual THEN Exec(i.i, ctx)
     ELSE Raise(ctx, Catch(IF wantEqual THEN E_Match ELSE E_Mismatch))
 
 ExecAp(i, ctx) ==
     LET a == Resolve(ctx, i.src) IN
     IF a.r = "join" THEN Incomplete(ctx)
-    ELSE IF a.r = "err" THEN Raise(ctx, Catch(a.code))
+    ELSE IF a.r = "err" THEN Raise(ctx, ErrOf(a.code))
     ELSE SetValue(ctx, i.dst, a.val)
 
 ExecNew(i, ctx) ==
@@ -463,7 +465,7 @@ IterVals(val) ==
 ExecFold(i, ctx) ==
     LET a == Resolve(ctx, i.it) IN
     IF a.r = "join" THEN Incomplete(ctx)
-    ELSE IF a.r = "err" THEN Raise(ctx, Catch(a.code))
+    ELSE IF a.r = "err" THEN Raise(ctx, ErrOf(a.code))
     ELSE IF ~IsArr(a.val.v) THEN Raise(ctx, Catch(E_FoldNonArray))
     ELSE IF Len(a.val.v.q) = 0 THEN ctx
     ELSE IF i.x \in DOMAIN ctx.it THEN Raise(MeetFoldStart(ctx), Uncatch(U_MultipleIterable))
